@@ -115,6 +115,19 @@ Lemma data_unfold : forall i s,
   = got_of (find_writer i (s_wr s)) ++ (hold_of (find_writer i (s_wr s)) ++ rt_hold i s ++ sn_hold i s) ++ future i s.
 Proof. reflexivity. Qed.
 
+Lemma sum_live_new : forall ts, list_sum (map w_live (map new_writer ts)) = length ts.
+Proof.
+  unfold list_sum. induction ts as [|t r IH]; cbn [map fold_right length]; [reflexivity|].
+  rewrite IH. reflexivity.
+Qed.
+
+Lemma sum_live_close : forall tm ws,
+  list_sum (map w_live (upd_writer tm w_close ws)) = list_sum (map w_live ws).
+Proof.
+  unfold list_sum. induction ws as [|v r IH]; cbn [upd_writer map fold_right]; [reflexivity|].
+  destruct (Z.eqb (w_tm v) tm); cbn [map fold_right]; [reflexivity | now rewrite IH].
+Qed.
+
 Ltac inv_pre HI :=
   destruct HI as [Hnp Hin HwgM Hret Hkeys HwgR Hdone Hsnrd Hrtsn Hwr Hrdwf Hsnwf Hhave Hdata];
   cbn [s_main s_wgM s_rd s_sn s_rt s_wgR s_wr s_panic] in *.
@@ -128,7 +141,10 @@ Ltac data_cbn :=
        set_main set_wgM set_rd set_sn set_rt set_wgR set_wr set_panic] in *.
 
 Ltac inv_auto :=
-  constructor; st_cbn; auto; try (intros; discriminate); try (intros; contradiction); try tauto.
+  constructor; st_cbn; auto; try (intros; discriminate); try (intros; contradiction); try tauto;
+  try (match goal with
+       | H : ?m = MRet -> _ |- ?m = MRet -> _ => let HX := fresh in intros HX; specialize (H HX); discriminate
+       end).
 
 (** The step relation after [LMainStart] preserves the invariant. *)
 Lemma inv_step_started : forall cfg s l s', wf_config cfg -> Inv cfg s -> s_main s <> MInit ->
@@ -189,10 +205,10 @@ Proof.
     inv_auto.
   - (* LRouterSpawn *)
     destruct rt; try discriminate. inversion H; subst; clear H.
-    destruct ws; [|discriminate]. cbn [map list_sum fold_right] in HwgR. subst wgR.
+    destruct ws; [|discriminate].
     inv_auto.
     + apply map_tm_new.
-    + cbn [Nat.add]. induction (c_targets cfg) as [|t r IH]; cbn; [reflexivity | now rewrite <- IH].
+    + rewrite sum_live_new. reflexivity.
     + intros i w Hf. cbn [chan_closed].
       apply find_writer_In in Hf as [Hf _]. apply in_map_iff in Hf as (t & <- & _). cbn.
       split; [reflexivity | intros [E|E]; discriminate].
@@ -208,7 +224,8 @@ Proof.
     inv_auto.
     + rewrite map_tm_upd by apply w_tm_set_st. exact Hkeys.
     + pose proof (sum_upd w_live tm (w_set_st (WHold m)) ws w Ef) as Hs.
-      unfold w_live at 2 3 in Hs. cbn [w_set_st w_st] in Hs. rewrite Ew in Hs. lia.
+      assert (Hl1 : w_live w = 1) by (unfold w_live; rewrite Ew; reflexivity).
+      change (w_live (w_set_st (WHold m) w)) with 1 in Hs. rewrite Hl1 in Hs. lia.
     + apply (writers_upd (fun i w => w_closed w = false /\ (w_st w = WFin \/ w_st w = WDone -> w_closed w = true)));
         [apply w_tm_set_st | exact Hwr | | ].
       * intros v Hv [Hv1 Hv2]. cbn. split; [assumption | intros [E|E]; discriminate].
@@ -234,8 +251,7 @@ Proof.
     destruct (memz tm todo) eqn:Em; [|discriminate]. inversion H; subst; clear H.
     inv_auto.
     + rewrite map_tm_upd by apply w_tm_close. exact Hkeys.
-    + rewrite HwgR. clear. induction ws as [|v r IH]; cbn [upd_writer map]; [reflexivity|].
-      destruct (Z.eqb (w_tm v) tm); cbn [map list_sum fold_right] in *; [reflexivity | now rewrite IH].
+    + symmetry. apply sum_live_close.
     + apply (writers_upd (fun i w => w_closed w = negb (memz i todo) /\ (w_st w = WFin \/ w_st w = WDone -> w_closed w = true)));
         [apply w_tm_close | exact Hwr | | ].
       * intros v Hv [Hv1 Hv2]. cbn. rewrite memz_remove_tm_same. split; [reflexivity | reflexivity].
@@ -257,7 +273,8 @@ Proof.
     inv_auto.
     + rewrite map_tm_upd by apply w_tm_handle. exact Hkeys.
     + pose proof (sum_upd w_live tm (w_handle m) ws w Ef) as Hs.
-      unfold w_live at 2 3 in Hs. cbn [w_handle w_st] in Hs. rewrite Ew in Hs. lia.
+      assert (Hl1 : w_live w = 1) by (unfold w_live; rewrite Ew; reflexivity).
+      change (w_live (w_handle m w)) with 1 in Hs. rewrite Hl1 in Hs. lia.
     + apply (writers_upd (fun i w => w_closed w = chan_closed rt i /\ (w_st w = WFin \/ w_st w = WDone -> w_closed w = true)));
         [apply w_tm_handle | exact Hwr | | ].
       * intros v Hv [Hv1 Hv2]. cbn. split; [assumption | intros [E|E]; discriminate].
@@ -276,7 +293,8 @@ Proof.
     inv_auto.
     + rewrite map_tm_upd by apply w_tm_set_st. exact Hkeys.
     + pose proof (sum_upd w_live tm (w_set_st WFin) ws w Ef) as Hs.
-      unfold w_live at 2 3 in Hs. cbn [w_set_st w_st] in Hs. rewrite Ew in Hs. lia.
+      assert (Hl1 : w_live w = 1) by (unfold w_live; rewrite Ew; reflexivity).
+      change (w_live (w_set_st WFin w)) with 1 in Hs. rewrite Hl1 in Hs. lia.
     + apply (writers_upd (fun i w => w_closed w = chan_closed rt i /\ (w_st w = WFin \/ w_st w = WDone -> w_closed w = true)));
         [apply w_tm_set_st | exact Hwr | | ].
       * intros v Hv [Hv1 Hv2]. rewrite Ef in Hv. inversion Hv; subst v. cbn. split; [assumption | intros _; assumption].
@@ -291,7 +309,8 @@ Proof.
     destruct (find_writer tm ws) as [w|] eqn:Ef; [|discriminate].
     destruct (w_st w) eqn:Ew; try discriminate.
     pose proof (sum_upd w_live tm (w_set_st WDone) ws w Ef) as Hs.
-    unfold w_live at 2 3 in Hs. cbn [w_set_st w_st] in Hs. rewrite Ew in Hs.
+      assert (Hl1 : w_live w = 1) by (unfold w_live; rewrite Ew; reflexivity).
+      change (w_live (w_set_st WDone w)) with 0 in Hs. rewrite Hl1 in Hs.
     destruct wgR as [|n]; [lia|]. inversion H; subst; clear H.
     inv_auto.
     + rewrite map_tm_upd by apply w_tm_set_st. exact Hkeys.
@@ -321,16 +340,15 @@ Proof.
   destruct (s_main s) eqn:Em.
   - destruct l; try discriminate. inversion H; subst; clear H.
     rewrite (inv_init _ _ HI Em). destruct Hwf as [Hts Hsrc].
-    constructor; cbn; try reflexivity; try tauto; try discriminate.
-    + intros i w Hf. discriminate.
-    + exact Hsrc.
+    constructor; cbn; try reflexivity; try tauto; try discriminate; try (intros; discriminate); try exact Hsrc.
   - apply (inv_step_started cfg s l s' Hwf HI); [congruence | exact H].
   - apply (inv_step_started cfg s l s' Hwf HI); [congruence | exact H].
 Qed.
 
 Theorem reachable_inv : forall cfg s, wf_config cfg -> reachable cfg s -> Inv cfg s.
 Proof.
-  intros cfg s Hwf [ls H]. induction H as [|s0 ls s1 l s2 _ IH Hs].
+  intros cfg s Hwf [ls H]. remember (init cfg) as s0 eqn:E0.
+  induction H as [s0|s0 ls s1 l s2 _ IH Hs]; subst.
   - now apply inv_init_state.
   - eapply inv_step; eauto.
 Qed.
